@@ -27,13 +27,13 @@ Lemma sim_bogusCommentState : forall m s, R m s -> st m = bogusCommentState -> s
 Proof.
   intros m s HR Hst.
   destruct m as [ms mi mc mt mo mcd mb]; destruct s as [ss si sc st' so scd sb];
-  unfold R in HR; cbn [st inp cur tmp out cdata_ok bad] in *;
-  destruct HR as (Hs & Hi & Ht & Ho & Hcd & Hb & Hsb & Hc); subst.
+  unfold R, sst, sinp in HR; cbn [st inp cur tmp out cdata_ok bad] in *;
+  destruct HR as (Hs & Hi & Ht & Ho & Hcd & Hb & Hsb & Hc); subst; cbv beta iota.
   eval_eqb. change (sc = CComment []) in Hc. subst sc. set (d := @nil N).
   unfold step_bogusCommentState, chars_until. cbn [inp].
   set (p := fun c => negb (c =? 62)).
   unfold simok. cbn [fst snd]. m_norm.
-  split; [reflexivity|]. split; [reflexivity|].
+  split; [reflexivity|]. split; [reflexivity|]. side2.
   pose proof (take_drop_while p mi) as Hsplit.
   pose proof (take_while_all p mi) as Hall.
   pose proof (drop_while_head p mi) as Hhead.
